@@ -55,6 +55,11 @@ pub fn paragraphs(h: &crate::harvest::Harvest, tier: Tier) -> Vec<String> {
         "Wait... what?",
         "Mr. Smith paid 3.5% at 0x1F.",
         "See https://example.com or mail a@b.co.",
+        // addresses whose lexing must not depend on what a later paragraph contains
+        "See https://example.com/tset now.",
+        "Open http://localhost:8080/tset now.",
+        "Write to joe@example.com today.",
+        "It costs 3.50 or 1,000 in all.",
     ] {
         set.insert(s.to_string());
     }
@@ -65,7 +70,7 @@ pub fn paragraphs(h: &crate::harvest::Harvest, tier: Tier) -> Vec<String> {
     // keep the hand-written heavy ones regardless of length
     let mut out: Vec<String> = v.iter().take(cap).cloned().collect();
     for s in v.iter().skip(cap) {
-        if s.contains("N.S.A.") || s.contains("1st") || s.contains("😀") || s.contains("et al") || s.contains("0x1F") || s.contains("https://") {
+        if s.contains("N.S.A.") || s.contains("1st") || s.contains("😀") || s.contains("et al") || s.contains("0x1F") || s.contains("://") || s.contains('@') || s.contains("3.50") {
             out.push(s.clone());
         }
     }
@@ -99,6 +104,10 @@ pub fn rests(h: &crate::harvest::Harvest, tier: Tier) -> Vec<String> {
             set.insert(format!("{w} {t}"));
             set.insert(format!("{t} {w}"));
         }
+    }
+    // a later paragraph that holds the characters the address and number lexers look for
+    for t in ["Mail x@y.co", "Or to bob@example.org tomorrow.", "@", "a@", "@b", "x:y", "http://c.d/e", "see ftp://f.g:21/h", "1.5", ".5.", "3,000.", "\"q\"@r.st"] {
+        set.insert(t.to_string());
     }
     let mut v: Vec<String> = set.into_iter().collect();
     v.sort_by(|a, b| (a.len(), a).cmp(&(b.len(), b)));
